@@ -56,10 +56,23 @@ def dep_text(name, variant=0):
             '    <enumeration name="Mode%(ns)s" c:type="XyMode%(ns)s"><member name="on" value="1" c:identifier="XY_MODE_%(u)s_ON"/></enumeration>\n'
             '  </namespace>\n</repository>\n') % {'ns': ns, 'l': ns.lower(), 'u': ns.upper(), 'own': own,
                                                  'o': 'Alpha' if ns == 'Aa' else 'Beta'}
+    if name in ('High-1.0', 'Low-1.0'):
+        # two namespaces with the same identifier prefix, one including the other, both describing the
+        # same C type (like GIOCondition in GLib and GObject)
+        ns = name[:-4]
+        inc = '  <include name="Low" version="1.0"/>\n' if ns == 'High' else ''
+        return _HDR + inc + (
+            '  <package name="%(l)s-1.0"/>\n  <c:include name="%(l)s.h"/>\n'
+            '  <namespace name="%(ns)s" version="1.0" shared-library="lib%(l)s.so.1" c:identifier-prefixes="Hl" '
+            'c:symbol-prefixes="hl_%(l)s">\n'
+            '    <bitfield name="Cond" c:type="HlCond"><member name="in" value="1" c:identifier="HL_COND_IN"/>'
+            '<member name="out" value="2" c:identifier="HL_COND_OUT"/></bitfield>\n'
+            '    <record name="Only%(ns)s" c:type="HlOnly%(ns)s">\n      <field name="v" writable="1"><type name="gint" c:type="gint"/></field>\n    </record>\n'
+            '  </namespace>\n</repository>\n') % {'ns': ns, 'l': ns.lower()}
     raise KeyError(name)
 
 
-GENERATED = ('Top-1.0', 'Aa-1.0', 'Bb-1.0')
+GENERATED = ('Top-1.0', 'Aa-1.0', 'Bb-1.0', 'High-1.0', 'Low-1.0')
 INCDIRS = {'inc_a': 'Thing', 'inc_b': 'Item'}     # two directories holding a different Dep-1.0.gir
 
 
@@ -533,6 +546,38 @@ def inputs():
         i['expect'] = ['<type name="%s"' % want]
         i['reject'] = ['<type name="%s"' % never]
         out.append(i)
+
+    # a boolean property with two getter candidates (get_X has priority over is_X) declared in
+    # different headers; a read-only boolean with three candidates
+    sw = _dumpxml('class', 'FooSw', 'foo_sw_get_type',
+                  '<property name="active" type="gboolean" flags="3" default-value="FALSE"/>'
+                  '<property name="enabled" type="gboolean" flags="1" default-value="FALSE"/>'
+                  '<property name="level" type="gint" flags="3" default-value="0"/>', parents='GObject')
+    out.append(_inp('accessors', [
+        Typedef('FooSw', 'struct _FooSw'),
+        Typedef('FooSwClass', 'struct _FooSwClass'),
+        Struct('_FooSw', [Field('parent', 'GObject')]),
+        Struct('_FooSwClass', [Field('parent_class', 'GObjectClass')]),
+        Func('foo_sw_get_type', 'GType'),
+        Func('foo_sw_is_active', 'gboolean', [('FooSw*', 'sw')]),
+        Func('foo_sw_get_active', 'gboolean', [('FooSw*', 'sw')]),
+        Func('foo_sw_set_active', 'void', [('FooSw*', 'sw'), ('gboolean', 'active')]),
+        Func('foo_sw_enabled', 'gboolean', [('FooSw*', 'sw')]),
+        Func('foo_sw_is_enabled', 'gboolean', [('FooSw*', 'sw')]),
+        Func('foo_sw_get_enabled', 'gboolean', [('FooSw*', 'sw')]),
+        Func('foo_sw_set_level', 'void', [('FooSw*', 'sw'), ('int', 'level')]),
+        Func('foo_sw_get_level', 'int', [('FooSw*', 'sw')]),
+    ], files=[A, A, A, B, A, A, B, A, B, A, B, A, B], blocks=[
+        B_('foo_sw_set_active', [('sw', '', 'sw'), ('active', '', 'state')]),
+        B_('FooSw:active', desc='Whether it is on.'),
+    ], dump={'foo_sw_get_type': sw}, includes=['GObject-2.0']))
+
+    # a C type described by two dependency namespaces with the same prefix, one including the other
+    out.append(_inp('hilo', [
+        Func('foo_watch', 'void', [('HlCond', 'cond'), ('HlOnlyHigh*', 'h'), ('HlOnlyLow*', 'l')]),
+        Func('foo_cond', 'HlCond'),
+    ], files=[A, B], blocks=[B_('foo_watch', [('cond', '', 'c'), ('h', '', 'h'), ('l', '', 'l')])],
+        includes=['High-1.0']))
 
     # SECTION ids that differ only in case: sections are looked up by exact key, so exactly
     # SECTION:foobar documents FooBar and the others stay standalone <docsection>s, in any block order
